@@ -145,7 +145,7 @@ impl Session {
         // check and verify a potential ENR update
 
         // Duplicate code here to avoid cloning an ENR
-        let remote_public_key = {
+        let (remote_public_key, enr_matches_remote_id) = {
             let enr = match (enr_record.as_ref(), challenge.remote_enr.as_ref()) {
                 (Some(new_enr), Some(known_enr)) => {
                     if new_enr.seq() > known_enr.seq() {
@@ -164,8 +164,19 @@ impl Session {
                     return Err(Error::SessionNotEstablished);
                 }
             };
-            enr.public_key()
+            (enr.public_key(), enr.node_id() == *remote_id)
         };
+
+        // The handshake must be verified under the key of the node the peer claims to be. A record
+        // of another node (e.g. the sender's own) proves nothing about `remote_id`: treat it like
+        // an invalid signature, i.e. ignore the packet and keep the challenge outstanding.
+        if !enr_matches_remote_id {
+            warn!(
+                node = %remote_id,
+                "Handshake record does not belong to the claimed node id. Ignoring packet",
+            );
+            return Err(Error::InvalidChallengeSignature(Box::new(challenge)));
+        }
 
         // verify the auth header nonce
         if !crypto::verify_authentication_nonce(
